@@ -27,12 +27,20 @@ func reducedConfigs() []synt.Config {
 	}
 }
 
+// c01SubConfigs are the configurations used when a statement, command or
+// argument word is printed on its own.
+var c01SubConfigs = []synt.Config{{}, {Minify: true}, {Single: true}}
+
 func c01(c *vc.Ctx) {
 	space := synSpace{Depth: 2, CoreOnly: true, LayoutDepth: 1, Corpus: true, AllVariantsDeep: !c.Quick()}
 	fullConfigs := synt.Configs(vc.Pick(c, []uint{0, 4}, []uint{0, 1, 2, 3, 4, 8}), true)
 	reduced := reducedConfigs()
-	c.Rule = space.describe() + fmt.Sprintf("; configurations: all %d option subsets x indents for corpus and depth<=1 programs, %d representative configurations for layout-deviation and depth-2 programs; per (program, variant, configuration): Print succeeds (error iff Minify+SingleLine), output reparses in the variant, canonical dump (no positions/comments, documented cosmetic rewrites normalised) equals the original's; plus each Stmt, Command and call-argument Word printed alone must reparse to itself; distinct = distinct canonical trees", len(fullConfigs), len(reduced))
-	c.Assumptions = []string{"the cosmetic normaliser implements exactly the rewrites named in the property (backquotes, $[ ], brace loops, ${x}->$x under Minify, literals split by escaped newlines, <<- tabs)"}
+	c.Rule = space.describe() + fmt.Sprintf("; configurations: all %d option subsets x indents for corpus and depth<=1 programs, %d representative configurations for layout-deviation and depth-2 programs; each parsed program is taken as parsed and, when syntax.Simplify changes it, also simplified; per (program, variant, simplify, configuration): Print succeeds (error iff Minify+SingleLine), output reparses in the variant, canonical dump (no positions/comments, documented cosmetic rewrites normalised) equals the original's; plus each Stmt, Command and call-argument Word of the tree printed alone (default, Minify, SingleLine) must reparse to itself; every divergence of a case is classified, an unclassified one wins; distinct = distinct canonical trees", len(fullConfigs), len(reduced))
+	c.Assumptions = []string{
+		"the cosmetic normaliser implements exactly the rewrites named in the property (backquotes, $[ ], brace loops, ${x}->$x under Minify, literals split by escaped newlines, <<- tabs, doubled trailing backslash)",
+		"a word printed alone is judged as the sole argument of a dummy command `cmd`",
+		"class predicates that use a counterfactual (same tree with the trigger removed, or same text plus a newline) run the real printer and parser again",
+	}
 	complete := vc.Run(c, func(emit func(synCase)) { genSyn(c, space, emit) }, func(t synCase) *vc.Fail {
 		cfgs := fullConfigs
 		if t.Kind >= 2 {
@@ -43,151 +51,321 @@ func c01(c *vc.Ctx) {
 	c.Finish(complete)
 }
 
-func c01One(c *vc.Ctx, t synCase, cfgs []synt.Config) *vc.Fail {
-	key := t.Variant + " " + fmt.Sprintf("%q", t.Src)
-	ws := synt.GetWorkspace()
-	defer synt.PutWorkspace(ws)
-	lang := synt.LangByName(t.Variant)
-	f, err := ws.Parse(t.Src, lang)
-	if err != nil {
-		c.Count("pairs_not_parsing", 1)
-		return nil // not in the property's domain
+// c01Div is one observed divergence from the property.
+type c01Div struct {
+	// Kind: refusal (Minify+SingleLine not refused as documented),
+	// print-error, reparse (output does not parse), tree (output parses to a
+	// different tree), panic.
+	Kind string
+	// What was printed: File, Stmt, Command or Word.
+	What       string
+	Simplified bool
+	Cfg        synt.Config
+	// Root is the tree that Node belongs to, Index the position of Node in
+	// the syntax.Walk order of Root (0 = Root itself).
+	Root  *syntax.File
+	Node  syntax.Node
+	Index int
+	Out   string // the text that was reparsed (a word is wrapped as "cmd <word>")
+	Err   string
+	Orig  string // canonical dump of Node
+	Re    string // canonical dump of what came back
+}
+
+type c01Ctx struct {
+	c    *vc.Ctx
+	t    synCase
+	lang syntax.LangVariant
+	ws   *synt.Workspace
+	key  string
+	// first unclassified and first classified divergence
+	unclassified, classified *vc.Fail
+	classes                  map[string]bool
+}
+
+func (x *c01Ctx) report(d *c01Div) {
+	class := c01Classify(x, d)
+	if class == "" && x.unclassified != nil || class != "" && x.classified != nil && x.classes[class] {
+		return
 	}
-	c.Count("pairs_parsing", 1)
-	dumps := map[bool]string{}
-	dumpOf := func(minify bool) string {
-		if d, ok := dumps[minify]; ok {
-			return d
+	simp := ""
+	if d.Simplified {
+		simp = " simplified"
+	}
+	key := fmt.Sprintf("%s %s(%s)%s cfg=%s", x.key, d.Kind, d.What, simp, d.Cfg)
+	var msg string
+	subject := shortSrc(x.t.Src)
+	if d.Simplified {
+		subject += " (after Simplify)"
+	}
+	if d.What != "File" {
+		subject = "a " + d.What + " of " + subject + " printed alone"
+	}
+	switch d.Kind {
+	case "refusal":
+		msg = fmt.Sprintf("[%s] %s: Minify+SingleLine must be refused, got err=%s", x.t.Variant, subject, d.Err)
+	case "print-error":
+		msg = fmt.Sprintf("[%s] %s with %s fails: %s", x.t.Variant, subject, d.Cfg, d.Err)
+	case "reparse":
+		msg = fmt.Sprintf("[%s] %s with %s gives %s which does not parse: %s", x.t.Variant, subject, d.Cfg, shortSrc(d.Out), d.Err)
+	case "tree":
+		msg = fmt.Sprintf("[%s] %s with %s gives %s which parses to a different tree", x.t.Variant, subject, d.Cfg, shortSrc(d.Out))
+	default:
+		msg = fmt.Sprintf("[%s] %s with %s: %s: %s", x.t.Variant, subject, d.Cfg, d.Kind, d.Err)
+	}
+	f := &vc.Fail{Key: key, Msg: msg, Class: class}
+	if d.Kind == "tree" {
+		f.Detail = map[string]string{"orig": d.Orig, "reparsed": d.Re}
+	}
+	if class == "" {
+		x.unclassified = f
+		return
+	}
+	if x.classes == nil {
+		x.classes = map[string]bool{}
+	}
+	if !x.classes[class] {
+		x.classes[class] = true
+		x.c.Count("class_"+class, 1)
+	}
+	if x.classified == nil {
+		x.classified = f
+	}
+}
+
+// c01Pick extracts from the reparsed file the node that corresponds to the
+// node that was printed.
+func c01Pick(what string, f2 *syntax.File) (any, bool) {
+	switch what {
+	case "File":
+		return f2, true
+	case "Stmt":
+		if len(f2.Stmts) != 1 {
+			return f2.Stmts, false
 		}
-		d := synt.Dump(f, synt.DumpOpts{Cosmetic: true, Minify: minify})
-		dumps[minify] = d
+		return f2.Stmts[0], true
+	case "Command":
+		if len(f2.Stmts) != 1 {
+			return f2.Stmts, false
+		}
+		st := f2.Stmts[0]
+		if st.Negated || st.Background || st.Coprocess || st.Disown || len(st.Redirs) > 0 {
+			return st, false
+		}
+		return st.Cmd, true
+	case "Word":
+		if len(f2.Stmts) != 1 {
+			return f2.Stmts, false
+		}
+		ce, ok := f2.Stmts[0].Cmd.(*syntax.CallExpr)
+		if !ok || len(ce.Args) != 2 || len(ce.Assigns) != 0 || len(f2.Stmts[0].Redirs) != 0 {
+			return f2.Stmts[0], false
+		}
+		return ce.Args[1], true
+	}
+	return nil, false
+}
+
+func c01Wrap(what, out string) string {
+	if what == "Word" {
+		return "cmd " + out
+	}
+	return out
+}
+
+// roundTrip prints n with cfg, reparses and compares. It returns nil when
+// the property holds for this (node, configuration).
+func (x *c01Ctx) roundTrip(n syntax.Node, what string, cfg synt.Config, verified map[string]bool) *c01Div {
+	d := &c01Div{What: what, Cfg: cfg, Node: n}
+	var out string
+	var perr error
+	if fl := guard("print", func() { out, perr = x.ws.Print(cfg, n) }); fl != nil {
+		x.ws.Drop()
+		d.Kind, d.Err = "panic", fl.Msg
 		return d
 	}
-	c.Distinct(dumpOf(false))
-	verified := map[string]bool{}
-	for _, cfg := range cfgs {
-		var out string
-		var perr error
-		if fl := guard(key+" cfg="+cfg.String(), func() { out, perr = ws.Print(cfg, f) }); fl != nil {
-			ws.Drop()
-			return fl
+	if cfg.Minify && cfg.Single {
+		if perr == nil || !strings.Contains(perr.Error(), minifySingleLineMsg) {
+			d.Kind, d.Err = "refusal", fmt.Sprint(perr)
+			return d
 		}
-		if cfg.Minify && cfg.Single {
-			if perr == nil || !strings.Contains(perr.Error(), minifySingleLineMsg) {
-				return vc.Failf(key+" minify+singleline", "Minify+SingleLine must be refused, got err=%v", perr)
-			}
-			continue
-		}
-		if perr != nil {
-			return vc.Failf(key+" print-error", "Print(%s) of %s [%s] fails: %v", cfg, shortSrc(t.Src), t.Variant, perr)
-		}
+		return nil
+	}
+	if perr != nil {
+		d.Kind, d.Err = "print-error", perr.Error()
+		return d
+	}
+	if verified != nil {
 		vk := out
 		if cfg.Minify {
 			vk = "M" + out
 		}
 		if verified[vk] {
-			continue
+			return nil
 		}
 		verified[vk] = true
-		f2, err := ws.Parse(out, lang)
-		if err != nil {
-			return &vc.Fail{Key: key + " reparse", Msg: fmt.Sprintf("[%s] %s printed with %s gives %s which does not parse: %v", t.Variant, shortSrc(t.Src), cfg, shortSrc(out), err)}
-		}
-		if d2 := synt.Dump(f2, synt.DumpOpts{Cosmetic: true, Minify: cfg.Minify}); d2 != dumpOf(cfg.Minify) {
-			return &vc.Fail{Key: key + " tree", Msg: fmt.Sprintf("[%s] %s printed with %s gives %s which parses to a different tree", t.Variant, shortSrc(t.Src), cfg, shortSrc(out)),
-				Detail: map[string]string{"orig": dumpOf(cfg.Minify), "reparsed": d2}}
-		}
 	}
-	// sub-node printing, with the default and a Minify configuration
-	if t.Kind >= 2 && c.Quick() {
-		return nil
+	d.Out = c01Wrap(what, out)
+	var f2 *syntax.File
+	var err error
+	if fl := guard("reparse", func() { f2, err = x.ws.Parse(d.Out, x.lang) }); fl != nil {
+		x.ws.Drop()
+		d.Kind, d.Err = "panic", fl.Msg
+		return d
 	}
-	var fail *vc.Fail
-	sub := func(n syntax.Node, what string, wrap func(string) string, pick func(*syntax.File) (any, bool)) {
-		if fail != nil {
-			return
-		}
-		for _, cfg := range []synt.Config{{}, {Minify: true}} {
-			var out string
-			var perr error
-			if fl := guard(key+" sub", func() { out, perr = ws.Print(cfg, n) }); fl != nil {
-				ws.Drop()
-				fail = fl
-				return
-			}
-			if perr != nil {
-				fail = vc.Failf(key+" sub-print-error "+what, "printing a %s of %s alone fails: %v", what, shortSrc(t.Src), perr)
-				return
-			}
-			src := wrap(out)
-			f2, err := ws.Parse(src, lang)
-			if err != nil {
-				fail = &vc.Fail{Key: key + " sub-reparse " + what, Msg: fmt.Sprintf("[%s] a %s of %s printed alone (%s) gives %s which does not parse: %v", t.Variant, what, shortSrc(t.Src), cfg, shortSrc(src), err)}
-				return
-			}
-			got, ok := pick(f2)
-			o := synt.DumpOpts{Cosmetic: true, Minify: cfg.Minify}
-			if !ok || synt.Dump(got, o) != synt.Dump(n, o) {
-				fail = &vc.Fail{Key: key + " sub-tree " + what, Msg: fmt.Sprintf("[%s] a %s of %s printed alone (%s) gives %s which parses to a different node", t.Variant, what, shortSrc(t.Src), cfg, shortSrc(src)),
-					Detail: map[string]string{"orig": synt.Dump(n, o), "reparsed": synt.Dump(got, o)}}
-				return
-			}
-		}
+	if err != nil {
+		d.Kind, d.Err = "reparse", err.Error()
+		return d
 	}
-	ident := func(s string) string { return s }
-	oneStmt := func(f2 *syntax.File) (any, bool) {
-		if len(f2.Stmts) != 1 {
-			return f2.Stmts, false
-		}
-		return f2.Stmts[0], true
+	o := synt.DumpOpts{Cosmetic: true, Minify: cfg.Minify}
+	got, ok := c01Pick(what, f2)
+	d.Orig = synt.Dump(n, o)
+	if d.Re = synt.Dump(got, o); !ok || d.Re != d.Orig {
+		d.Kind = "tree"
+		return d
 	}
+	return nil
+}
+
+// c01SubNodes calls f for every node of the tree that the property's last
+// sentence covers: each statement, each command and each word used as a
+// command argument, with its index in the Walk order.
+func c01SubNodes(root *syntax.File, f func(n syntax.Node, what string, index int)) {
 	elses := map[*syntax.IfClause]bool{} // else/elif branches are not commands of their own
-	syntax.Walk(f, func(n syntax.Node) bool {
-		if ic, ok := n.(*syntax.IfClause); ok && ic.Else != nil {
-			elses[ic.Else] = true
-		}
-		return true
-	})
-	syntax.Walk(f, func(n syntax.Node) bool {
-		if ic, ok := n.(*syntax.IfClause); ok && elses[ic] {
+	idx := -1
+	syntax.Walk(root, func(n syntax.Node) bool {
+		if n == nil {
 			return true
+		}
+		idx++
+		if ic, ok := n.(*syntax.IfClause); ok {
+			if ic.Else != nil {
+				elses[ic.Else] = true
+			}
+			if elses[ic] {
+				return true
+			}
 		}
 		switch n := n.(type) {
 		case *syntax.Stmt:
-			sub(n, "Stmt", ident, oneStmt)
+			f(n, "Stmt", idx)
+		case syntax.Command:
+			f(n, "Command", idx)
+		}
+		return true
+	})
+	// argument words: a second pass keeps the index bookkeeping simple
+	idx = -1
+	args := map[*syntax.Word]bool{}
+	syntax.Walk(root, func(n syntax.Node) bool {
+		if n == nil {
+			return true
+		}
+		idx++
+		switch n := n.(type) {
 		case *syntax.CallExpr:
 			for i, w := range n.Args {
-				if i == 0 {
-					continue
+				if i > 0 {
+					args[w] = true
 				}
-				sub(w, "Word", func(s string) string { return "cmd " + s }, func(f2 *syntax.File) (any, bool) {
-					if len(f2.Stmts) != 1 {
-						return nil, false
-					}
-					ce, ok := f2.Stmts[0].Cmd.(*syntax.CallExpr)
-					if !ok || len(ce.Args) != 2 {
-						return f2.Stmts[0].Cmd, false
-					}
-					return ce.Args[1], true
-				})
+			}
+		case *syntax.Word:
+			if args[n] {
+				f(n, "Word", idx)
 			}
 		}
-		if cmd, ok := n.(syntax.Command); ok {
-			sub(cmd, "Command", ident, func(f2 *syntax.File) (any, bool) {
-				if len(f2.Stmts) != 1 {
-					return f2.Stmts, false
-				}
-				st := f2.Stmts[0]
-				if st.Negated || st.Background || st.Coprocess || st.Disown || len(st.Redirs) > 0 {
-					return st, false
-				}
-				return st.Cmd, true
-			})
-		}
-		return fail == nil
+		return true
 	})
-	if fail != nil {
-		return fail
+}
+
+// c01NodeAt returns the node at the given Walk index.
+func c01NodeAt(root *syntax.File, index int) syntax.Node {
+	idx := -1
+	var found syntax.Node
+	syntax.Walk(root, func(n syntax.Node) bool {
+		if n == nil || found != nil {
+			return found == nil
+		}
+		idx++
+		if idx == index {
+			found = n
+			return false
+		}
+		return true
+	})
+	return found
+}
+
+// c01Tree parses the case's source again (a fresh, mutable tree) and applies
+// Simplify when asked.
+func (x *c01Ctx) tree(simplified bool) *syntax.File {
+	f, err := x.ws.Parse(x.t.Src, x.lang)
+	if err != nil {
+		return nil
+	}
+	if simplified {
+		syntax.Simplify(f)
+	}
+	return f
+}
+
+func c01One(c *vc.Ctx, t synCase, cfgs []synt.Config) *vc.Fail {
+	ws := synt.GetWorkspace()
+	defer synt.PutWorkspace(ws)
+	x := &c01Ctx{c: c, t: t, lang: synt.LangByName(t.Variant), ws: ws, key: fmt.Sprintf("[%s] %q", t.Variant, t.Src)}
+	f, err := ws.Parse(t.Src, x.lang)
+	if err != nil {
+		c.Count("pairs_not_parsing", 1)
+		return nil // not in the property's domain
+	}
+	c.Count("pairs_parsing", 1)
+	c.Distinct(synt.Dump(f, synt.DumpOpts{Cosmetic: true}))
+	trees := []*syntax.File{f}
+	if fs := x.tree(false); fs != nil {
+		var changed bool
+		if fl := guard(x.key+" simplify", func() { changed = syntax.Simplify(fs) }); fl != nil {
+			return fl
+		}
+		if changed {
+			c.Count("pairs_changed_by_simplify", 1)
+			trees = append(trees, fs)
+		}
+	}
+	subs := !(t.Kind >= 2 && c.Quick())
+	nsub := map[string]int{}
+	defer func() {
+		for what, n := range nsub {
+			c.Count("printed_alone_"+what, n)
+		}
+	}()
+	for ti, root := range trees {
+		verified := map[string]bool{}
+		for _, cfg := range cfgs {
+			c.Eval(1)
+			if d := x.roundTrip(root, "File", cfg, verified); d != nil {
+				d.Root, d.Simplified = root, ti == 1
+				x.report(d)
+			}
+		}
+		if !subs {
+			continue
+		}
+		c01SubNodes(root, func(n syntax.Node, what string, index int) {
+			nsub[what]++
+			for _, cfg := range c01SubConfigs {
+				c.Eval(1)
+				if d := x.roundTrip(n, what, cfg, nil); d != nil {
+					d.Root, d.Index, d.Simplified = root, index, ti == 1
+					x.report(d)
+				}
+			}
+		})
+	}
+	if x.unclassified != nil {
+		return x.unclassified
+	}
+	if x.classified != nil {
+		return x.classified
 	}
 	if t.Kind >= 2 {
 		c.Sample(map[string]any{"src": t.Src, "variant": t.Variant})
